@@ -120,17 +120,19 @@ fn hex_encode(b: &[u8]) -> String {
 /// Every three-letter code iso_currency accepts (the table the parser consults).
 fn op_currencies() -> Value {
     let mut v = Vec::new();
+    let mut info = serde_json::Map::new();
     for a in b'A'..=b'Z' {
         for b in b'A'..=b'Z' {
             for c in b'A'..=b'Z' {
                 let code = String::from_utf8_lossy(&[a, b, c]).to_string();
-                if cgt_money::Currency::from_code(&code).is_some() {
+                if let Some(cur) = cgt_money::Currency::from_code(&code) {
+                    info.insert(code.clone(), json!({"exponent": cur.exponent(), "symbol": cur.symbol().to_string()}));
                     v.push(code);
                 }
             }
         }
     }
-    json!({"ok": true, "codes": v})
+    json!({"ok": true, "codes": v, "info": info})
 }
 
 fn show_money(m: &cgt_money::CurrencyAmount) -> String {
@@ -224,6 +226,28 @@ fn op_roundtrip(case: &Value, fx: &cgt_money::FxCache) -> Value {
            "report_dsl": if want_reports { back.as_ref().map(|b| report_sig(b, fx)).unwrap_or(Value::Null) } else { Value::Null }})
 }
 
+/// One computed report rendered by the plain-text formatter and as JSON, beside its full-precision values.
+fn op_format(case: &Value, fx: &cgt_money::FxCache) -> Value {
+    let txs = match parse_input(case) {
+        Ok(t) => t,
+        Err(e) => return json!({"ok": false, "stage": "parse", "error": e}),
+    };
+    let cfg = match config_of(case) {
+        Ok(c) => c,
+        Err(e) => return json!({"ok": false, "stage": "config", "error": e}),
+    };
+    let year = case.get("year").and_then(|v| v.as_i64()).map(|y| y as i32);
+    match calculate(&txs, year, Some(fx), &cfg) {
+        Ok(r) => {
+            let plain = cgt_formatter_plain::format(&r);
+            let js = serde_json::to_string_pretty(&r).unwrap_or_default();
+            json!({"ok": true, "report": jreport(&r), "plain": plain, "json": js,
+                   "transactions": r.transactions.iter().map(show_txn).collect::<Vec<_>>()})
+        }
+        Err(e) => json!({"ok": false, "stage": "calculate", "error": e.to_string()}),
+    }
+}
+
 /// The embedded exemption table, so that both sides are given the code's own data.
 fn op_config() -> Value {
     match Config::embedded() {
@@ -265,6 +289,7 @@ fn main() {
             "currencies" => op_currencies(),
             "parse" => op_parse(&case),
             "roundtrip" => op_roundtrip(&case, &fx),
+            "format" => op_format(&case, &fx),
             _ => json!({"ok": false, "stage": "harness", "error": format!("unknown op {op}")}),
         }));
         let mut v = match res {
